@@ -75,6 +75,16 @@ Definition g13_v13_mtu300 : N * bool * list (N * list (N * N * N * N * N * N * N
     (5, [(0, 2, 1, 0, 300, 1174, 325); (0, 2, 1, 300, 300, 1174, 325); (0, 2, 1, 600, 300, 1174, 325); (0, 2, 1, 900, 274, 1174, 299); (2, 8, 2, 0, 2, 2, 36); (2, 11, 3, 0, 300, 354, 334); (2, 11, 3, 300, 54, 354, 88); (2, 15, 4, 0, 68, 68, 102); (2, 20, 5, 0, 32, 32, 66)]);
     (6, [(2, 20, 2, 0, 32, 32, 66)]);
     (7, [(3, 4, 6, 0, 53, 53, 87)])]).
+(* variant v13-hrr-clientauth-mtu450: (MTU, server answers the first ClientHello with a HelloRetryRequest,
+   [(flight, [(epoch, type, message_seq, fragment_offset, fragment_length, length, bytes on the wire)])]) *)
+Definition g13_v13_hrr_clientauth_mtu450 : N * bool * list (N * list (N * N * N * N * N * N * N)) :=
+  (450, true,
+   [(2, [(0, 1, 0, 0, 238, 238, 263)]);
+    (3, [(0, 6, 0, 0, 72, 72, 97)]);
+    (4, [(0, 1, 1, 0, 264, 264, 289)]);
+    (5, [(0, 2, 1, 0, 119, 119, 144); (2, 8, 2, 0, 2, 2, 36); (2, 13, 3, 0, 58, 58, 92); (2, 11, 4, 0, 354, 354, 388); (2, 15, 5, 0, 68, 68, 102); (2, 20, 6, 0, 32, 32, 66)]);
+    (6, [(2, 11, 2, 0, 356, 356, 390); (2, 15, 3, 0, 68, 68, 102); (2, 20, 4, 0, 32, 32, 66)]);
+    (7, [(3, 4, 7, 0, 53, 53, 87)])]).
 (* variant v13-mtu120: (MTU, server answers the first ClientHello with a HelloRetryRequest,
    [(flight, [(epoch, type, message_seq, fragment_offset, fragment_length, length, bytes on the wire)])]) *)
 Definition g13_v13_mtu120 : N * bool * list (N * list (N * N * N * N * N * N * N)) :=
@@ -103,4 +113,4 @@ Definition g13_v13_dualc_direct : N * bool * list (N * list (N * N * N * N * N *
     (5, [(0, 2, 0, 0, 1174, 1174, 1199); (2, 8, 1, 0, 2, 2, 36); (2, 11, 2, 0, 354, 354, 388); (2, 15, 3, 0, 68, 68, 102); (2, 20, 4, 0, 32, 32, 66)]);
     (6, [(2, 20, 1, 0, 32, 32, 66)]);
     (7, [(3, 4, 5, 0, 53, 53, 87)])]).
-Definition g13_all := [g13_v13; g13_v13_hrr; g13_v13_direct; g13_v13_clientauth; g13_v13_hrr_clientauth; g13_v13_hrr_mtu300; g13_v13_mtu300; g13_v13_mtu120; g13_v13_dualc; g13_v13_dualc_direct].
+Definition g13_all := [g13_v13; g13_v13_hrr; g13_v13_direct; g13_v13_clientauth; g13_v13_hrr_clientauth; g13_v13_hrr_mtu300; g13_v13_mtu300; g13_v13_hrr_clientauth_mtu450; g13_v13_mtu120; g13_v13_dualc; g13_v13_dualc_direct].
